@@ -44,7 +44,8 @@ from translate import c10_findap_numba as _tr  # noqa: E402
 ID = "C10"
 LEAN_MODULES = ["PyYetiVerif.Props.C10", "PyYetiVerif.Props.C10Fde", "PyYetiVerif.Props.C10PreFix",
                 "PyYetiVerif.Props.C10Bins", "PyYetiVerif.Props.C10Labels", "PyYetiVerif.Props.C10Psd", "PyYetiVerif.Props.C10Locate",
-                "PyYetiVerif.Props.C10Cell", "PyYetiVerif.Props.C10Dups", "PyYetiVerif.Audit.C10"]
+                "PyYetiVerif.Props.C10Cell", "PyYetiVerif.Props.C10Dups", "PyYetiVerif.Props.C10Totals", "PyYetiVerif.Props.C10G2Inf",
+                "PyYetiVerif.Audit.C10"]
 AUDIT_FILE = "PyYetiVerif/Audit/C10.lean"
 THEOREMS = ["PyYetiVerif.C10." + n for n in (
     # findap, both variants, the code after the repairs f8f6e40 / 4b29dcf - full strength
@@ -57,6 +58,10 @@ THEOREMS = ["PyYetiVerif.C10." + n for n in (
     "sigcount_auto_conserves "
     # the table cell by cell (row = mean bin, column = amplitude bin, np.digitize's edge convention)
     "binify_cell_sum binify_cell_sum_unguarded bins_disjoint binify_explicit_is_guarded binify_explicit_cell_sum binify_auto_cell_sum "
+    # the total re-derived from the cells
+    "one_axis_partition binify_total_from_cells table_sum_eq_cells binify_conserves_2d_from_cells binify_uncovered_in_no_cell "
+    # the G2max loop with numpy's division by zero
+    "G2_ge_G1_loop_full g2maxX_eq_g2max_of_lt g2maxX_inf_example "
     # fdepsd bookkeeping
     "cum_count_antitone count_col0_total bincount_sum_total G2_ge_G1 amax_le_srs bincount_spec damage_def damage_per_cycle "
     "table_scaling test_damage_positive test_variance_reproduces_internal test_variance_reproduces var_test_is_documented_variance "
@@ -65,7 +70,7 @@ THEOREMS = ["PyYetiVerif.C10." + n for n in (
     "resp_switch_G1_G2 fdeFreq_neg psd_quadratic_scaling_full psd_quadratic_scaling_input "
     # locate
     "find_unique_spec find_unique_length findap_uses_find_unique find_unique_boundary_example "
-    "find_duplicates_eq_spec find_duplicates_iff find_duplicates_length find_duplicates_neg_tol find_duplicates_example "
+    "find_duplicates_eq_spec find_duplicates_iff find_duplicates_monotone_tol find_duplicates_length find_duplicates_neg_tol find_duplicates_example "
 ).split()]
 TRUSTED = [
     "correspondence harness harness/props/c10.py (exact comparison on dyadic inputs; bit-for-bit on srs/Amax/binamps/count/bincount "
@@ -116,13 +121,17 @@ PARTIAL = (
     "partial: auto_bins_cover / binify_auto_conserves / labels_distinct_of_gap are over exact arithmetic (doubles: finding F41, fixed; "
     "labels of computed edges within 1e-6 of a rounding boundary are skipped and counted).  binify: every cell of the table is proved to be the summed count of "
     "the cycles of its amplitude x mean interval (binify_cell_sum, also through the API for explicit and automatic bins), and the table "
-    "total (binify_conserves_2d) is proved separately, not re-derived from the cell sums.  find_duplicates: the code model equals the "
+    "total is re-derived from the cell sums (the bins partition the range: one_axis_partition, binify_total_from_cells, "
+    "binify_conserves_2d_from_cells; only the SHAPE of the table is still taken from the loop proof).  find_duplicates: the code model equals the "
     "documented meaning for every tolerance and every vector (find_duplicates_eq_spec, exact arithmetic; argsort's order among equal "
     "values does not matter to the proof, which uses only that the sort result is a sorted permutation - the model's sort is a merge "
     "sort).  psd_quadratic_scaling_full covers c of either sign from the filtered "
     "response on; that detrend/windowends/butter/lfilter/resample are homogeneous is the specification IsLinear "
-    "(psd_quadratic_scaling_input), sampled by the oracle's x4 and x(-4) runs, not proved.  G2_ge_G1_loop assumes every examined "
-    "level's count is below the total (equality: division by zero, G2 = inf in doubles, still >= G1).  String rendering of labels "
+    "(psd_quadratic_scaling_input), sampled by the oracle's x4 and x(-4) runs, not proved.  G2_ge_G1_loop_full covers the division by zero of "
+    "the G2max loop (a selected level whose count EQUALS the total: +inf, modelled by Fde.g2maxX and tied by the g2x stream, which "
+    "requires the +inf branch on every run); it assumes what cumulative counts satisfy (0 < count <= total on the examined levels) and that "
+    "y1 - y[k] is not NaN (a difference of logs of positive finite counts); a level with count 0 at or above Amax/3 (log 0 = -inf) is "
+    "outside the theorem, the Float stream covers it.  String rendering of labels "
     "(digits, sign of a negative value rounding to zero) is executable model + exact stream, theorems are about the label NUMBER.  The "
     "fast path of _unique_kept is modelled by its two vectorised conditions (fastOK); numpy's evaluation of them (maximum.accumulate, "
     "fancy indexing) is tied by the exact findap stream, which requires both the vectorised and the sequential branch on every run."
@@ -1013,7 +1022,12 @@ def _corr_fde_worker(ctx, drv):
             req.append(_ff_line(opts["resp"], Q, f, opts["T0"], nb, resphist))
             meta.append(("grid", dict(inp0, row=j, nsig=int(out.sig.size)), out, j, worker, opts["resp"], nb))
     # dyadic signals through an identity SDOF filter: cycles exactly on the bin levels, constant-amplitude tables
-    for k, (sig, nb) in enumerate(_exact_signals(ctx, ctx.pick(60, 600), 15)):
+    # constant-amplitude / nearly constant-amplitude tables: a level at or above Amax/3 whose count EQUALS the total is selected, the
+    # code divides by y1 - y[k] = 0 and G2 is +inf (G2_ge_G1_loop_full, Fde.g2maxX)
+    g2inf = [(np.array(s, dtype=float), nb) for s, nb in (([1, -1, 1, -1, 1, -1, 1], 4), ([1, -1, 1, -1, 1, -1, 1], 4),
+                                                          ([0, 1, -1, 1, -1, 1, -1, 0], 4), ([0, 1, -1, 1, -1, 1, -1, 0], 4),
+                                                          ([2, -2, 2, -2, 2], 2), ([0.5, -0.5, 0.5, -0.5, 0.5, -0.5], 8))]
+    for k, (sig, nb) in enumerate(g2inf + _exact_signals(ctx, ctx.pick(60, 600), 15)):
         resp = ("absacce", "pvelo")[k % 2]
         try:
             out, wcount, wamps = _run_exact(sig, nb, resp)
@@ -1025,6 +1039,7 @@ def _corr_fde_worker(ctx, drv):
             meta.append(("exact", {"exact_sig": sig.tolist(), "nbins": nb, "resp": resp, "row": j}, out, j,
                          dict(binamps=wamps, count=wcount), resp, nb))
     rep = drv.ask(req)
+    g2req, g2meta = [], []
     for (kind, inp, out, j, worker, resp, nb), r in zip(meta, rep):
         if r in ("value-error", "bad-op"):
             ctx.case((kind, repr(inp)), branch="fdeworker:" + r)
@@ -1042,11 +1057,27 @@ def _corr_fde_worker(ctx, drv):
             if np.any(np.isin(rf_[:, 0], m["levels"][1:])):
                 ctx.count("fdeworker:exact:cycle-on-level")
         ok = _cmp_ff(ctx, "worker" if kind == "grid" else "worker-exact", inp, out, j, m, worker)
+        g2req.append("g2x %s | %s | %s" % (_bits(out.peakamp.values[j, 0]), _bits(out.binamps.values[j]), _bits(out.count.values[j])))
+        g2meta.append((inp, float(out.peakamp.values[j, 0]), float(out.peakamp.values[j, 1])))
         if ok and len(ctx.samples) < 6 and j == 0 and kind == "grid":
             ctx.sample({"fdepsd-worker": inp, "psd": out.psd.values[j].tolist()})
+    # the G2max loop with numpy's division by zero (Fde.g2maxX, Model/FdePsdInf.lean; theorem G2_ge_G1_loop_full): fed the RETURNED
+    # Amax / BinAmps / Count of every row above, it must say +inf exactly where fdepsd's G2 peak amplitude (sqrt(G2max)) is +inf and
+    # otherwise give a finite G2max whose root is that amplitude; -inf / NaN never
+    for (inp, amax, pk2), r in zip(g2meta, drv.ask(g2req)):
+        kindx = "pinf" if r == "pinf" else "other" if not r.startswith("fin ") else "fin-kept" if _unbits(r[4:])[0] == amax * amax else "fin-raised"
+        ctx.case(("g2x", repr(inp)), nontrivial=True, branch="g2x:" + kindx)
+        if r == "pinf":
+            agree = bool(np.isposinf(pk2))
+        elif r.startswith("fin "):
+            agree = bool(np.isfinite(pk2)) and _relclose([pk2], [float(np.sqrt(_unbits(r[4:])[0]))])
+        else:
+            agree = False
+        if not agree:
+            ctx.disagree("fdepsd-G2max-division-by-zero-model (g2maxX)", inp, pk2, r)
     return ["fdeworker:grid:resp=absacce", "fdeworker:grid:resp=pvelo", "fdeworker:exact:resp=absacce", "fdeworker:exact:resp=pvelo",
             "fdeworker:g2-raised", "fdeworker:g2-kept", "fdeworker:nbins=1", "fdeworker:nbins=2", "fdeworker:nbins=many",
-            "fdeworker:exact:cycle-on-level"]
+            "fdeworker:exact:cycle-on-level", "g2x:pinf", "g2x:fin-kept", "g2x:fin-raised"]
 
 
 
